@@ -9,6 +9,7 @@ from .common import case_payload, first_diff, layout
 
 ID = "C15"
 LEVEL = "exploration"
+HISTORY = True  # every second shard first runs a prelude of earlier library use (history.py)
 RULE = (
     "hypothesis-generated command/response streams (well-formed, and fault-injected ones decoded in warn mode) rendered as (a) hex "
     "text with random letter case and whitespace between and inside pairs, (b) swtpm logs in the documented layout (free-text "
